@@ -317,6 +317,11 @@ def run(tier, seed, t0):
             rolling_window(e3, k, batch, nb)
         except _e3.ENC_ERRORS as ex:
             e3.error(f"c15_window_{k}{'batch' if batch else 'single'}_n{nb}", "MIR->SMT encoding of Distribution::record_samples / RollingSummary", ex)
+    try:
+        import prom_int
+        prom_int.scen_ageing(e3, "C15", "c15")
+    except _e3.ENC_ERRORS as ex:
+        e3.error("c15_summary_across_quiet_time", "MIR->SMT integration encoding of the Prometheus recorder", ex)
     obs = list(e3.res.obligations)
     obs += kani.run_group("util", HARNESSES, tier, hooks=True)
     finish("C15", tier, seed, obs, t0, ASSUME + ASSUME_E3 + ["E3 callee models: " + ", ".join(sorted(e3.models))], FUNCS + sorted(e3.functions),
